@@ -396,12 +396,26 @@ func sortedKeys(m map[string]int) []string {
 // ---------- generators shared by suites ----------
 
 // adversarial user keys: contain '@', bytes below '@', shared prefixes, look like versioned keys
-var userKeys = []string{"a", "b", "a@1", "a!", "ab", "k@10", "k@9", "k", "z", "a@", "@", "a@b@7", "\x00", "a\x00", "~", "aa", "k@009", "user:1"}
+var userKeys = []string{"a", "b", "a@1", "a!", "ab", "k@10", "k@9", "k", "z", "a@", "@", "a@b@7", "\x00", "a\x00", "~", "aa", "k@009", "user:1", "a\x00b", "k\xff", "k\x00"}
 
 // pairs of keys whose 64-bit murmur3 hashes (utils.Hash) agree in the low / the high 32 bits: whatever fingerprint of a key
 // the engine may keep instead of the key, these collide in it sooner than others
 var collidingKeys = [][2]string{{"acct-54031", "acct-134332"}, {"acct-125260", "acct-147298"}, {"acct-18568", "acct-150543"},
 	{"acct-30211", "acct-81225"}, {"acct-31162", "acct-82408"}, {"acct-90969", "acct-104726"}}
+
+// subsetKeys: n keys of the universe in random order (every generator works on a small universe so that keys collide; which
+// keys it is made of changes from case to case, so that over a run every special key takes part)
+func subsetKeys(r *rand.Rand, n int) []string {
+	if n > len(userKeys) {
+		n = len(userKeys)
+	}
+	perm := r.Perm(len(userKeys))
+	var ks []string
+	for i := 0; i < n; i++ {
+		ks = append(ks, userKeys[perm[i]])
+	}
+	return ks
+}
 
 // caseKeys, when set, replaces the front of the key universe for the case being generated
 var caseKeys []string
